@@ -202,9 +202,13 @@ func C16(c *Ctx) {
 			// leaf effects (the helpers releaseAddress/releasePrefix are summarised, or may have been inlined by hand):
 			// the external allocator's Release, else the legacy pool's; nothing is held when neither is configured
 			{"address", anyOf(callOnField("pkg/allocator", "PoolAllocator", "Release", "Server.addressAllocator"), callTo("pkg/dhcpv6", "AddressPool", "Release")),
-				orAbsent(nilField("Lease.Address"), func(a []string) bool { return nilField("Server.addressAllocator")(a) && nilField("Server.addressPool")(a) })},
+				orAbsent(nilField("Lease.Address"), func(a []string) bool {
+					return nilField("Server.addressAllocator")(a) && nilField("Server.addressPool")(a)
+				})},
 			{"prefix", anyOf(callOnField("pkg/allocator", "PoolAllocator", "Release", "Server.prefixAllocator"), callTo("pkg/dhcpv6", "PrefixPool", "Release")),
-				orAbsent(nilField("Lease.Prefix"), func(a []string) bool { return nilField("Server.prefixAllocator")(a) && nilField("Server.prefixPool")(a) })},
+				orAbsent(nilField("Lease.Prefix"), func(a []string) bool {
+					return nilField("Server.prefixAllocator")(a) && nilField("Server.prefixPool")(a)
+				})},
 		}, nil, nil},
 	}
 	for _, t := range terms {
